@@ -82,7 +82,7 @@ package masswallet
 //@   requires forall qi_ int :: 0 <= qi_ && qi_ < len(inputs) ==> inputs[qi_] != nil
 //@   modifies rollbacks()
 //@   at "mtx.AddTxIn(txIn)" assert[C10] seqOK(pks, txIn.Sequence, lockTime, block != nil && forks.EnforceMASSIP0002WarmUp(block.Height))
-//@   loop#1 invariant mtx != nil && fresh(mtx) && len(mtx.TxIn) == iter_ && len(senders) == iter_ && fresh(senders) && validAmt(totalValue)
+//@   loop#1 invariant mtx != nil && fresh(mtx) && len(mtx.TxIn) == iter_ && (mtx.TxIn == nil || fresh(mtx.TxIn)) && len(senders) == iter_ && fresh(senders) && validAmt(totalValue)
 //@   ensures[C10] result3 == nil ==> result0 != nil && len(result0.TxIn) == len(inputs) && len(result1) == len(inputs)
 //@ func (*NtfnsHandler).onRelevantTx
 //@   trusted
